@@ -87,9 +87,13 @@ def parse_file(text):
         f = [x for x in f if x != ""]
         if len(f) != 3:
             raise ValueError(f"record line with {len(f)} fields: {ln!r}")
-        v = Decimal(f[2]) * 100
-        if v != v.to_integral_value():
-            raise ValueError(f"value with more than two decimals: {ln!r}")
+        try:
+            v = Decimal(f[2]) * 100
+            ok = v == v.to_integral_value() and len(f[2].split(".")[-1]) == 2 and "." in f[2]
+        except ArithmeticError:
+            raise ValueError(f"unreadable value: {ln!r}")
+        if not ok:
+            raise ValueError(f"value not printed with two decimals: {ln!r}")
         recs.append((int(f[0]), int(f[1]), int(v), f[2]))
     return consts, recs, lines[1:]
 
@@ -442,7 +446,12 @@ def generator_half(ctx, tmpdir, horizons):
             # the file against the in-memory container (record level, sparse)
             qc = QUBOContainer(Qm, cm)
             J, h, c = sparse_items(qc.J), [fr(v) for v in qc.h], fr(qc.const_ising)
-            consts, recs, _ = parse_file(open(path, encoding="utf-8").read())
+            try:
+                with open(path, encoding="utf-8") as fh:
+                    consts, recs, _ = parse_file(fh.read())
+            except ValueError as e:
+                bad("file-content", f"{base + suffix}.rudy: {e}", info)
+                continue
             want = {(i, i): round2(h[i]) for i in range(n) if h[i] != 0}
             want.update({k: round2(v) for k, v in J.items() if k[0] != k[1]})
             got = {}
@@ -453,7 +462,11 @@ def generator_half(ctx, tmpdir, horizons):
             if dup or got != want or len(consts) != 1 or Decimal(consts[0]) * 100 != round2(c):
                 bad("file-content", f"{base + suffix}.rudy does not list the in-memory Ising coefficients exactly once, rounded", info)
                 continue
-            M, lc = load_ising_matrix(path)
+            try:
+                M, lc = load_ising_matrix(path)
+            except Exception as e:  # noqa
+                bad("load-error", f"{base + suffix}.rudy: the package's loader rejects the generated file: {type(e).__name__}: {e}", info)
+                continue
             m = M.shape[0]
             if M.shape[0] != M.shape[1] or m > n:
                 bad("load-shape", f"{base + suffix}.rudy loads with shape {M.shape} for {n} variables", info)
@@ -529,16 +542,22 @@ def run(ctx):
                                       {"input": case_json(small, ising), "file": None if obs2 is None else obs2["text"].split("\n")[1:],
                                        "python": "props.c10.check_impl(*props.c10.case_from_json(input), tmpdir)"}, True)
                         reported += 1
-                    if obs is None or obs["load"][0] == "err":
+                    if obs is None:
+                        continue
+                n, Mat, h, c = obs["mem"]
+                rows_used = {i for i in range(n) for j in range(n) if coefficient(obs["mem"], ising, i, j) != 0}
+                cols_used = {j for i in range(n) for j in range(n) if coefficient(obs["mem"], ising, i, j) != 0}
+                dist["last_only_as_column"] += bool(cols_used) and (not rows_used or max(cols_used) > max(rows_used))
+                if msg is not None:
+                    if obs["load"][0] == "err":
                         continue
                     try:
                         parse_file(obs["text"])
-                    except ValueError:
+                    except Exception:  # noqa
                         continue
                 kept.append((case, ising, obs))
                 terms.append(case_lit(obs, ising))
                 tterms.append(text_case_lit(obs, ising))
-                n, Mat, h, c = obs["mem"]
                 dist["n"][n] = dist["n"].get(n, 0) + 1
                 dist["pattern"][case[2]] = dist["pattern"].get(case[2], 0) + 1
                 dist["ising" if ising else "qubo"] += 1
@@ -552,9 +571,6 @@ def run(ctx):
                 dist["rounds_to_zero"] += any(round2(q) == 0 for q in nzc)
                 dist["minus_zero"] += "-0.00" in obs["text"]
                 dist["exact_hundredths"] += all((q * 100).denominator == 1 for q in nzc + [c]) and bool(nzc)
-                rows_used = {i for i in range(n) for j in range(n) if coefficient(obs["mem"], ising, i, j) != 0}
-                cols_used = {j for i in range(n) for j in range(n) if coefficient(obs["mem"], ising, i, j) != 0}
-                dist["last_only_as_column"] += bool(cols_used) and (not rows_used or max(cols_used) > max(rows_used))
                 key = repr((case, ising))
                 if key not in seen:
                     seen.add(key)
